@@ -4,8 +4,9 @@
 //! and a nested map): maps of css::Value are out of CBMC's reach.  OrderMap
 //! is the real generic one.  MEASURED: even one insertion into a map of this
 //! (recursive) mock type exceeds 15 minutes in CBMC — the harness is a
-//! thorough-tier attempt and has never finished; map.merge / set / get are
-//! NOT covered by any discharged obligation.
+//! thorough-tier attempt and has never finished; map.merge / set are NOT
+//! covered by any discharged obligation.  map.get / map.has-key ARE (mod
+//! `lookup` below: nested maps behind references, no drop glue).
 use crate::ordermap::OrderMap;
 
 #[derive(Clone, PartialEq, Debug)]
@@ -50,6 +51,163 @@ fn c13_merge_order_and_values() {
     assert!(m1.len() == 3, "the keys of both maps");
     assert!(entry(&m1, 0) == Some((1, 11)), "m1's key first, with m2's value");
     assert!(entry(&m1, 1) == Some((9, 90)) && entry(&m1, 2) == Some((2, 20)), "then m2's new keys in m2's order");
+}
+
+// ---- map.get / map.has-key: `find_value` and the two closures, complete
+// bodies extracted each run, at a stand-in value type whose nested maps and
+// key lists are `&'static` REFERENCES (so the type has no recursive drop
+// glue, which is what CBMC does not finish on) — lookups only read.  The
+// map type is the real generic OrderMap.  Listed (regex) substitution,
+// argument fetches only: `s.get(name!(x))?` -> `x_arg.clone()`. ----
+pub(crate) mod lookup {
+    use crate::ordermap::OrderMap;
+    pub struct CallError;
+    impl CallError {
+        pub fn msg<T>(_m: T) -> CallError {
+            CallError
+        }
+    }
+    pub type ValueMap = OrderMap<Value, Value>;
+    /// a list of keys behind a reference; `for k in &keys` works as on a Vec
+    #[derive(Clone, Copy, PartialEq, Debug)]
+    pub struct Keys(pub &'static [Value]);
+    impl<'a> IntoIterator for &'a Keys {
+        type Item = &'a Value;
+        type IntoIter = core::slice::Iter<'a, Value>;
+        fn into_iter(self) -> Self::IntoIter {
+            self.0.iter()
+        }
+    }
+    #[derive(Clone, Copy, PartialEq, Debug)]
+    pub struct Args {
+        pub positional: Keys,
+        pub has_named: bool,
+        pub trailing_comma: bool,
+    }
+    impl Args {
+        pub fn check_no_named(&self) -> Result<(), String> {
+            if self.has_named { Err(String::new()) } else { Ok(()) }
+        }
+    }
+    #[derive(Clone, Copy, PartialEq, Debug)]
+    pub enum Value {
+        Atom(u8),
+        Null,
+        True,
+        False,
+        Map(&'static ValueMap),
+        List(Keys, Option<u8>, bool),
+        ArgList(Args),
+    }
+    impl Value {
+        /// as css::Value::iter_items (an argument list written with a
+        /// trailing comma gets a null item at the end)
+        pub fn iter_items(self) -> Vec<Value> {
+            match self {
+                Value::List(k, ..) => k.0.to_vec(),
+                Value::ArgList(a) => {
+                    let mut v = a.positional.0.to_vec();
+                    if a.trailing_comma {
+                        v.push(Value::Null);
+                    }
+                    v
+                }
+                other => vec![other],
+            }
+        }
+        pub fn is_null(&self) -> bool {
+            matches!(self, Value::Null)
+        }
+    }
+    impl From<bool> for Value {
+        fn from(b: bool) -> Value {
+            if b { Value::True } else { Value::False }
+        }
+    }
+//@item file=rsass/src/sass/functions/map.rs kind=fn name=find_value
+//@end
+//@range file=rsass/src/sass/functions/map.rs fn=create_module after="def_va!(f, get(map, key, keys), |s| {" until="\n    });"
+//@  header: pub fn snippet_get(map_arg: &ValueMap, key_arg: Value, keys_arg: Value) -> Result<Value, CallError>
+//@  resubst: s\.get\(name!\((\w+)\)\)\? => \1_arg.clone()
+//@end
+//@range file=rsass/src/sass/functions/map.rs fn=create_module after="def_va!(f, has_key(map, key, keys), |s| {" until="\n    });"
+//@  header: pub fn snippet_has_key(map_arg: &ValueMap, key_arg: Value, keys_arg: Value) -> Result<Value, CallError>
+//@  resubst: s\.get\(name!\((\w+)\)\)\? => \1_arg.clone()
+//@end
+}
+
+fn lk_fixture() -> lookup::ValueMap {
+    use lookup::{Value as V, ValueMap};
+    // (1: 10, 2: null, 3: (4: 40, 5: null))
+    let mut inner = ValueMap::new();
+    inner.insert(V::Atom(4), V::Atom(40));
+    inner.insert(V::Atom(5), V::Null);
+    let inner: &'static ValueMap = Box::leak(Box::new(inner));
+    let mut m = ValueMap::new();
+    m.insert(V::Atom(1), V::Atom(10));
+    m.insert(V::Atom(2), V::Null);
+    m.insert(V::Atom(3), V::Map(inner));
+    m
+}
+fn lk_get(m: &lookup::ValueMap, k: u8, keys: lookup::Value) -> Option<lookup::Value> {
+    lookup::snippet_get(m, lookup::Value::Atom(k), keys).ok()
+}
+fn lk_has(m: &lookup::ValueMap, k: u8, keys: lookup::Value) -> Option<lookup::Value> {
+    lookup::snippet_has_key(m, lookup::Value::Atom(k), keys).ok()
+}
+/// C13: map.get / map.has-key with one key: a key is found exactly when it
+/// is == to a stored key — also when the stored VALUE is null (has-key is
+/// true, get gives null).
+#[kani::proof]
+#[kani::unwind(6)]
+fn c13_get_and_has_key_single_key() {
+    use lookup::Value as V;
+    let m = lk_fixture();
+    assert!(lk_get(&m, 1, V::Null) == Some(V::Atom(10)), "get finds a stored key");
+    assert!(lk_get(&m, 9, V::Null) == Some(V::Null), "get of a missing key is null");
+    assert!(lk_has(&m, 1, V::Null) == Some(V::True), "has-key finds a stored key");
+    assert!(lk_has(&m, 2, V::Null) == Some(V::True), "has-key is true for a key whose value is null");
+    assert!(lk_get(&m, 2, V::Null) == Some(V::Null));
+    assert!(lk_has(&m, 9, V::Null) == Some(V::False), "has-key is false for a missing key");
+}
+/// C13: map.get / map.has-key with further keys follow nested maps; the
+/// further keys may come as the rest arguments (with or without a trailing
+/// comma in the call), as a list, or as a single value.
+static K4: [lookup::Value; 1] = [lookup::Value::Atom(4)];
+static K5: [lookup::Value; 1] = [lookup::Value::Atom(5)];
+static K9: [lookup::Value; 1] = [lookup::Value::Atom(9)];
+static NOKEYS: [lookup::Value; 0] = [];
+fn rest(k: &'static [lookup::Value], has_named: bool) -> lookup::Value {
+    lookup::Value::ArgList(lookup::Args { positional: lookup::Keys(k), has_named, trailing_comma: kani::any() })
+}
+#[kani::proof]
+#[kani::unwind(6)]
+fn c13_get_follows_further_keys() {
+    use lookup::Value as V;
+    let m = lk_fixture();
+    assert!(lk_get(&m, 3, rest(&K4, false)) == Some(V::Atom(40)), "get follows the further keys into the nested map");
+    assert!(lk_get(&m, 1, rest(&K4, false)) == Some(V::Null), "a further key below a non-map value: null");
+    assert!(lk_get(&m, 1, rest(&NOKEYS, false)) == Some(V::Atom(10)), "no further keys (a call with or without trailing comma): the value itself");
+}
+#[kani::proof]
+#[kani::unwind(6)]
+fn c13_has_key_follows_further_keys() {
+    use lookup::Value as V;
+    let m = lk_fixture();
+    assert!(lk_has(&m, 3, rest(&K5, false)) == Some(V::True), "nested key with a null value: has-key is true");
+    assert!(lk_has(&m, 3, rest(&K9, false)) == Some(V::False), "nested key missing: false");
+    assert!(lk_has(&m, 1, rest(&K4, false)) == Some(V::False), "a further key below a non-map value: false");
+    assert!(lk_has(&m, 2, rest(&NOKEYS, false)) == Some(V::True), "no further keys: the key itself");
+}
+#[kani::proof]
+#[kani::unwind(6)]
+fn c13_get_further_keys_as_list_or_single_value() {
+    use lookup::{Keys, Value as V};
+    let m = lk_fixture();
+    assert!(lk_get(&m, 3, V::List(Keys(&K4), None, false)) == Some(V::Atom(40)), "keys given as a list");
+    assert!(lk_get(&m, 3, V::Atom(4)) == Some(V::Atom(40)), "a single further key");
+    assert!(lk_has(&m, 3, V::Atom(9)) == Some(V::False));
+    assert!(lookup::snippet_get(&m, V::Atom(1), rest(&NOKEYS, true)).is_err(), "named rest arguments are rejected");
 }
 
 #[kani::proof]
